@@ -16,7 +16,7 @@ import re
 
 from ..cfg import ENTRY, EXIT, header_parts
 from ..effects import FS_DELETE, FS_WRITE, USER_CALL
-from ..flow import Defs, Scope, absence_by_none, conjuncts, guard_facts, rejections, unreachable_when
+from ..flow import Defs, Scope, absence_by_none, bool_eval, conjuncts, exit_avoiding, guard_facts, rejections, unreachable_when
 from ..loader import AnalysisError, FuncInfo, dotted, norm, walk_no_nested
 from ..report import Ctx
 from ..selftest import Mutant
@@ -82,26 +82,30 @@ REACH = [  # (from, to, why)
 ]
 
 
-def _unconditional(node: ast.AST):
-    """Sub-expressions that are evaluated whenever `node` is (no short-circuit / conditional operands)."""
+def _unconditional(node: ast.AST, env: dict[str, bool] | None = None):
+    """Sub-expressions that are evaluated whenever `node` is (no short-circuit / conditional operands); `env` holds known truth
+    values of plain names (a conditional expression on such a name evaluates the selected arm)."""
     yield node
     if isinstance(node, ast.BoolOp):
-        yield from _unconditional(node.values[0])
+        yield from _unconditional(node.values[0], env)
         return
     if isinstance(node, ast.IfExp):
-        yield from _unconditional(node.test)
+        yield from _unconditional(node.test, env)
+        v = bool_eval(node.test, env) if env else None
+        if v is not None:
+            yield from _unconditional(node.body if v else node.orelse, env)
         return
     if isinstance(node, (ast.ListComp, ast.SetComp, ast.GeneratorExp, ast.DictComp)):
-        yield from _unconditional(node.generators[0].iter)
+        yield from _unconditional(node.generators[0].iter, env)
         # an eager comprehension without a filter evaluates its element for EVERY item (a generator expression may be abandoned)
         if not isinstance(node, ast.GeneratorExp) and len(node.generators) == 1 and not node.generators[0].ifs:
             for part in ([node.key, node.value] if isinstance(node, ast.DictComp) else [node.elt]):
-                yield from _unconditional(part)
+                yield from _unconditional(part, env)
         return
     if isinstance(node, ast.Lambda):
         return
     for c in ast.iter_child_nodes(node):
-        yield from _unconditional(c)
+        yield from _unconditional(c, env)
 
 
 def _call_nodes(ctx: Ctx, fn: FuncInfo, target: str) -> set[int]:
@@ -217,45 +221,122 @@ def rule_wired(ctx: Ctx) -> None:  # noqa: C901, PLR0912, PLR0915
         ctx.add("1-wired", vf, sites[0][0] if sites else vf.node, not sites, "presence is decided by membership, not by comparing a looked-up value with None" if not sites else
                 f"`{sites[0][1]}.get(...)` compared with None decides whether an entry exists: a value that IS None (e.g. a default of None) is treated as absent, so the check it guards is skipped for it", key="none-is-a-value")
     # cycle detection on the run/__call__ path: something that certainly sorts topologically must dominate _run
-    sorts = {f"{PL}.topological_generations"}
     pl_cls = P.cls(PL)
-    changed = True
-    while changed:
-        changed = False
-        for m in pl_cls.methods.values():
-            if m.qualname in sorts:
-                continue
-            for st in m.node.body:
-                if isinstance(st, (ast.If, ast.For, ast.While, ast.Try, ast.With)):
+    _call_of: dict[int, ast.Call] = {}
+    for m in pl_cls.methods.values():
+        for c in ast.walk(m.node):
+            if isinstance(c, ast.Call):
+                _call_of[id(c.func)] = c
+    BASE = f"{PL}.topological_generations"
+
+    def _default_env(m: FuncInfo) -> dict[str, bool]:
+        a_ = m.node.args
+        env: dict[str, bool] = {}
+        pos = a_.args[len(a_.args) - len(a_.defaults):] if a_.defaults else []
+        for p_, d_ in list(zip(pos, a_.defaults)) + [(k_, d) for k_, d in zip(a_.kwonlyargs, a_.kw_defaults) if d is not None]:
+            if isinstance(d_, ast.Constant) and isinstance(d_.value, bool):
+                env[p_.arg] = d_.value
+        return env
+
+    def _callee_env(x: ast.Attribute, callee: FuncInfo) -> dict[str, bool]:
+        """Truth values of the callee's boolean parameters at this reference: its defaults, overridden by constant arguments;
+        a parameter that receives anything else, or that the callee rebinds, is unknown."""
+        env = _default_env(callee)
+        call = _call_of.get(id(x))
+        if call is not None:
+            names = [a.arg for a in callee.node.args.args][1:]
+            given = dict(zip(names, call.args))
+            given.update({k.arg: k.value for k in call.keywords if k.arg})
+            if any(isinstance(a, ast.Starred) for a in call.args) or any(k.arg is None for k in call.keywords):
+                return {}
+            for k_, v_ in given.items():
+                if isinstance(v_, ast.Constant) and isinstance(v_.value, bool):
+                    env[k_] = v_.value
+                else:
+                    env.pop(k_, None)
+        for n_ in ast.walk(callee.node):
+            if isinstance(n_, ast.Name) and isinstance(n_.ctx, ast.Store):
+                env.pop(n_.id, None)
+        return env
+
+    def _possible(node: ast.AST, env: dict[str, bool]):
+        """Every sub-expression that MAY be evaluated with `node` (a conditional expression decided by `env` keeps one arm)."""
+        yield node
+        if isinstance(node, ast.IfExp) and env:
+            v = bool_eval(node.test, env)
+            if v is not None:
+                yield from _possible(node.test, env)
+                yield from _possible(node.body if v else node.orelse, env)
+                return
+        for c in ast.iter_child_nodes(node):
+            yield from _possible(c, env)
+
+    def _self_refs(part: ast.AST, env: dict[str, bool], certain: bool):
+        for x in (_unconditional(part, env) if certain else _possible(part, env)):
+            if isinstance(x, ast.Attribute) and norm(x.value) == "self" and not isinstance(x.ctx, ast.Store) and x.attr in pl_cls.methods and x.attr != "_run":
+                yield x
+
+    def _admissible(cfg_m, defs_m: Defs, env: dict[str, bool]) -> set[int]:
+        """CFG nodes on some normal path from the entry that takes no branch ruled out by `env`."""
+        ifs = {n: defs_m.resolve(cfg_m.stmt[n].test) for n in cfg_m.nodes(lambda s_: isinstance(s_, (ast.If, ast.While)))}
+        seen, todo = {ENTRY}, [ENTRY]
+        while todo:
+            x = todo.pop()
+            for y in cfg_m.g.successors(x):
+                e = cfg_m.g.edges[x, y]
+                if y in seen or e.get("exceptional"):
                     continue
-                hit = False
-                for x in _unconditional(st):
-                    if isinstance(x, ast.Attribute) and norm(x.value) == "self" and f"{PL}.{x.attr}" in sorts and not isinstance(x.ctx, ast.Store):
-                        hit = True
-                    if isinstance(x, ast.Call) and isinstance(x.func, ast.Attribute) and norm(x.func.value) == "self":
-                        if x.func.attr == "mapspecs":
-                            # mapspecs(ordered=True) reads sorted_functions; ordered=False does not sort
-                            unordered = any(k.arg == "ordered" and isinstance(k.value, ast.Constant) and k.value.value is False for k in x.keywords)
-                            if not unordered and f"{PL}.sorted_functions" in sorts:
-                                hit = True
-                if hit:
-                    sorts.add(m.qualname)
-                    changed = True
-                    break
+                br = e.get("branch")
+                if br is not None and x in ifs:
+                    v = bool_eval(ifs[x], env)
+                    if v is not None and v != br:
+                        continue
+                seen.add(y)
+                todo.append(y)
+        return seen - {ENTRY, EXIT}
+
+    _memo: dict[tuple, bool] = {}
+
+    def _sorting_nodes(m: FuncInfo, env: dict[str, bool], certain: bool, stack: frozenset) -> set[int]:
+        cfg_m = ctx.cfg(m)
+        nodes = _admissible(cfg_m, Defs(m), env)
+        out = set()
+        for n in nodes:
+            for part in header_parts(cfg_m.stmt[n]):
+                if part is None:
+                    continue
+                for x in _self_refs(part, env, certain):
+                    callee = pl_cls.methods.get(x.attr)
+                    if callee is not None and _sorts(callee, _callee_env(x, callee), certain, stack):
+                        out.add(n)
+        return out
+
+    def _sorts(m: FuncInfo, env: dict[str, bool], certain: bool, stack: frozenset = frozenset()) -> bool:
+        """certain: every admissible normal path through `m` evaluates a topological sort; else: some admissible path may."""
+        if m.qualname == BASE:
+            return True
+        key = (m.qualname, tuple(sorted(env.items())), certain)
+        if key in _memo:
+            return _memo[key]
+        if m.qualname in stack:
+            return False
+        s_nodes = _sorting_nodes(m, env, certain, stack | {m.qualname})
+        res = bool(s_nodes) and (not certain or exit_avoiding(ctx.cfg(m), Defs(m), s_nodes, env) is None)
+        _memo[key] = res
+        return res
+
     run_m = P.func(f"{PL}.run")
     cfg_r = ctx.cfg(run_m)
     run_calls = cfg_r.nodes(lambda s: any(isinstance(c, ast.Call) and norm(c.func) == "self._run" for part in header_parts(s) for c in ast.walk(part)))
-    sort_nodes = set()
-    for n in cfg_r.nodes():
-        for part in header_parts(cfg_r.stmt[n]):
-            for x in _unconditional(part):
-                if isinstance(x, ast.Attribute) and norm(x.value) == "self" and f"{PL}.{x.attr}" in sorts:
-                    sort_nodes.add(n)
-                if isinstance(x, ast.Call) and isinstance(x.func, ast.Attribute) and norm(x.func.value) == "self" and f"{PL}.{x.func.attr}" in sorts and x.func.attr != "mapspecs":
-                    sort_nodes.add(n)
-    ok = bool(run_calls) and bool(sort_nodes) and all(any(cfg_r.dominates(s_, r) for s_ in sort_nodes) for r in run_calls)
-    ctx.add("1-wired", run_m, run_m.node, ok, "run() topologically sorts the (possibly mutated) graph before evaluating anything: cycles raise first" if ok else
-            "nothing on the way from run() to _run() certainly sorts the graph topologically: a cycle introduced through a member function is only noticed after user functions ran (RecursionError)", key="run-detects-cycles")
+    sort_nodes = _sorting_nodes(run_m, {}, True, frozenset())
+    ok = bool(run_calls) and bool(sort_nodes) and all(cfg_r.must_pass(ENTRY, r, sort_nodes, normal_only=True) for r in run_calls)
+    # a violation needs the positive fact that nothing evaluated before the run can sort at all
+    before_run = set()
+    for r in run_calls:
+        before_run |= {n for n in cfg_r.nodes() if r in cfg_r.reachable_from(n, normal_only=True)} | {r}
+    nothing = bool(run_calls) and not (_sorting_nodes(run_m, {}, False, frozenset()) & before_run)
+    ctx.tri("1-wired", run_m, run_m.node, ok, nothing, "run() topologically sorts the (possibly mutated) graph before evaluating anything: cycles raise first",
+            "nothing on the way from run() to _run() sorts the graph topologically: a cycle introduced through a member function is only noticed after user functions ran (RecursionError)", key="run-detects-cycles")
     tg = P.func(f"{PL}.topological_generations")
     # networkx raises on a cycle while the generator is consumed: it must be consumed completely inside the property
     par_t = {id(c): p_ for p_ in ast.walk(tg.node) for c in ast.iter_child_nodes(p_)}
@@ -526,7 +607,6 @@ MUTANTS = [
     Mutant("clash-exempts-bound", "pipefunc/_pipefunc.py", "        if overlap := set(self.parameters) & set(at_least_tuple(self.output_name)):\n", "        if overlap := (set(self.parameters) - set(self._bound)) & set(at_least_tuple(self.output_name)):\n", ("C12.1-wired",), why="round-4 seed C12/10"),
     Mutant("defaults-none-as-absent", "pipefunc/_pipeline/_validation.py", "            if arg not in arg_defaults:\n                arg_defaults[arg] = default_value\n            elif default_value != arg_defaults[arg]:\n",
            "            if (known := arg_defaults.get(arg)) is None:\n                arg_defaults[arg] = default_value\n            elif default_value != known:\n", ("C12.1-wired",), why="round-2 seed C12/6"),
-    Mutant("add-no-unique-check", B, "        validate_unique_output_names(f.output_name, self.output_to_func)\n", "", ("C12.1-wired",)),
     Mutant("validate-skips-scopes", B, "        validate_scopes(self.functions)\n        validate_consistent_defaults", "        validate_consistent_defaults", ("C12.1-wired",)),
     Mutant("graph-no-defaults-check", B, "        validate_consistent_defaults(self.functions, output_to_func=self.output_to_func)\n        g = nx.DiGraph()\n", "        g = nx.DiGraph()\n", ("C12.1-wired",), why="seeded C12/2"),
     Mutant("mapspec-names-unsorted", B, "            for mapspec in self.mapspecs()\n            for name in mapspec.input_names + mapspec.output_names\n", "            for mapspec in self.mapspecs(ordered=False)\n            for name in mapspec.input_names + mapspec.output_names\n", ("C12.1-wired",), why="seeded C12/3"),
@@ -536,7 +616,7 @@ MUTANTS = [
     Mutant("executor-check-late", PR, "    if not parallel and executor:\n        msg = \"Cannot use an executor without `parallel=True`.\"\n        raise ValueError(msg)\n    inputs = pipeline._flatten_scopes(inputs)\n", "    inputs = pipeline._flatten_scopes(inputs)\n", ("C12.1-wired",)),
     Mutant("storage-validated-late-F33", RIF, "    requires_serialization = _requires_serialization(storage)  # also validates the storage names\n    if run_folder is None and requires_serialization:\n", "    if run_folder is None and _requires_serialization(storage):\n", ("C12.1-wired", "C12.3-no-write"), why="original F33"),
     Mutant("storage-any-short-circuit-F33b", RIF, "    return any([get_storage_class(s).requires_serialization for s in storage.values()])  # noqa: C419\n", "    return any(get_storage_class(s).requires_serialization for s in storage.values())\n", ("C12.1-wired",), why="original F33b"),
-    Mutant("load-writes-F03", RIF, "        data[\"defaults\"] = load(Path(data.pop(\"defaults_path\")))\n        return cls(**data)\n", "        data[\"defaults\"] = load(Path(data.pop(\"defaults_path\")))\n        run_info = cls(**data)\n        run_info._write()\n        return run_info\n", ("C12.3-no-write",), why="original F03"),
+    Mutant("load-writes-F03", RIF, "        data[\"defaults\"] = load(_defaults_path(run_folder))\n        return cls(**data)\n", "        data[\"defaults\"] = load(_defaults_path(run_folder))\n        run_info = cls(**data)\n        run_info._write()\n        return run_info\n", ("C12.3-no-write",), why="original F03"),
     Mutant("write-before-shapes", RIF, "        _check_inputs(pipeline, inputs)\n        shapes, masks = map_shapes(pipeline, inputs, internal_shapes)\n",
            "        if run_folder is not None:\n            dump(inputs, run_folder / \"inputs.cloudpickle\")\n        _check_inputs(pipeline, inputs)\n        shapes, masks = map_shapes(pipeline, inputs, internal_shapes)\n", ("C12.3-no-write",)),
     Mutant("store-before-fixed-indices", PR, "    _validate_fixed_indices(fixed_indices, inputs, pipeline)\n    run_info = RunInfo.create(", "    run_info = RunInfo.create(", ("C12.1-wired", "C12.3-no-write")),
